@@ -124,6 +124,15 @@ def stress_programs():
     out.append(gs.Program([gs.Equation(Y, B('*', C('exp', (V('log', -2),)), C('max', (P_('min', 1), E_('abs')))))]))
     out.append(gs.Program([gs.Equation(V('log'), B('-', P_('exp', -1), C('np.sqrt', (V('max', 10),)))),
                            gs.Equation(V('min'), B('*', V('log'), E_('float')))]))
+    # {parameters} / <errors> named like Python keywords; max / min with three and more arguments
+    out.append(gs.Program([gs.Equation(V('B'), B('*', V('V'), B('+', P_('lambda'), B('*', P_('mu'), V('R')))))]))
+    out.append(gs.Program([gs.Equation(V('B'), B('-', B('+', B('*', V('V'), P_('del', -1)), E_('in')), E_('is', 1)))]))
+    out.append(gs.Program([gs.Equation(Y, B('+', C('max', (P_('None'), E_('True', 1))), C('exp', (P_('lambda', -2),)))),
+                           gs.Equation(V('Z'), B('*', Y, E_('for')))]))
+    out.append(gs.Program([gs.Equation(Y, C('max', (V('A'), V('B'), V('C'))))]))
+    out.append(gs.Program([gs.Equation(Y, C('min', (V('A'), V('B', -1), V('C', 1), N('4'))))]))
+    out.append(gs.Program([gs.Equation(Y, B('+', C('max', (V('A'), V('B'), N('0.5'))), C('min', (N('2'), V('A', -1), V('B', 1), V('Y', -1), P_('a')))))]))
+    out.append(gs.Program([gs.Equation(Y, C('max', (N('0.1'), V('X')))), gs.Equation(V('Z'), C('min', (V('X', -1), N('0.1'), Y)))]))
     # verbatim fragments whose text contains the pipeline's own markers, first / middle / last / several per statement
     Vb = gs.Verb
     for i, f in enumerate(ec.META_VERBS):
@@ -249,6 +258,10 @@ def quick_cases(ctx):
             prog2, used = ec.with_function_names(rng, prog)
             if used:
                 cases.append(mkcase(prog2, gs.render(prog2, L), L.wrap_rhs, stream='fnames:' + lname, seed=seed))
+        if i % 8 == 6:      # ... / with {parameters} and <errors> named like Python keywords ({lambda}, <in>, ...)
+            prog2, used = ec.with_keyword_names(rng, prog)
+            if used:
+                cases.append(mkcase(prog2, gs.render(prog2, L), L.wrap_rhs, stream='kwnames:' + lname, seed=seed))
         if i % 8 == 2:      # ... / with identifiers of up to 64+ characters (shared 32/64-character prefixes)
             prog2 = ec.with_long_names(rng, prog)
             cases.append(mkcase(prog2, gs.render(prog2, L), L.wrap_rhs, stream='longnames:' + lname, seed=seed))
@@ -358,7 +371,13 @@ def observe_(case, rep, want_impl=True):
     impl['eq'] = [ec.lex(endo[st.lhs.name].equation) if st.lhs.name in endo else None for st in eqs]
     impl['code'] = [ec.lex(endo[st.lhs.name].code) if st.lhs.name in endo else None for st in eqs]
     impl['tree'] = [ec.code_tree(endo[st.lhs.name].code) if st.lhs.name in endo else None for st in eqs]
-    impl['eqtree'] = [ec.eq_tree(endo[st.lhs.name].equation) if st.lhs.name in endo else None for st in eqs]
+    kwnamed = ec.keyword_named(prog)
+    for nm in kwnamed:
+        rep.dist['series-name:keyword:' + nm] += 1
+    # a normalised equation with a keyword-named parameter/error (`lambda[t]`) is a label, not Python: its lexemes are
+    # compared, its Python tree cannot be
+    impl['eqtree'] = [None if kwnamed else ec.eq_tree(endo[st.lhs.name].equation) if st.lhs.name in endo else None
+                      for st in eqs]
     body = ec.evaluate_body(b.Model)
     # statements of `_evaluate` that assign to a series (anything else in the template is not the property's business)
     impl['body'] = None
@@ -491,8 +510,8 @@ def observe_(case, rep, want_impl=True):
         else:
             rep.dist['solve_t-route:skipped-' + ('fault' if faults else 'other')] += 1
         # normalised equations, evaluated by Python itself in symbol order, must give the same pass
-        if shadowed:
-            rep.dist['equation-text:skipped-series-shadows-called-function-root'] += 1
+        if shadowed or kwnamed:
+            rep.dist['equation-text:skipped-' + ('series-shadows-called-function-root' if shadowed else 'keyword-named-series')] += 1
             continue
         env = {'exp': np.exp, 'log': np.log, 'max': max, 'min': min, 'abs': abs, 'np': np, 'float': float,
                'self': m, 'len': len}
@@ -564,7 +583,7 @@ def compare(case, impl, forms, evalp, rep):
         if mt != impl['tree'][i]:
             rep.disagree('ast of Symbol.code: model tree != Python ast', case, mt, impl['tree'][i])
         me = ec.expand_verb(forms['eqtree'][i], 'eq')
-        if me != impl['eqtree'][i]:
+        if impl['eqtree'][i] is not None and me != impl['eqtree'][i]:
             rep.disagree('ast of Symbol.equation: model tree != Python ast', case, me, impl['eqtree'][i])
     if impl['body'] is not None:
         m_body = [ec.expand_verb(forms['tree'][i], 'code') for i in forms['order']]
